@@ -13,6 +13,7 @@ const (
 	GLVSpecial   = "special"
 	GLVHalves    = "chosen-halves"
 	GLVQuotient  = "chosen-quotient"
+	GLVShort     = "short-halves"
 	GLVNibble    = "single-nibble-half"
 	GLVGeneral   = "general"
 	GLVLambdaPow = "lambda-power"
@@ -46,7 +47,7 @@ func fracHalfTimes(v *big.Int, sign int, j uint) *big.Int {
 
 // GLVScalar draws a scalar in [0,n) steered at the endomorphism split.
 func GLVScalar(t *rapid.T, label string) (*big.Int, string) {
-	kind := Sampled([]string{GLVSpecial, GLVHalves, GLVHalves, GLVQuotient, GLVQuotient, GLVNibble, GLVGeneral, GLVLambdaPow}).Draw(t, label+"_kind")
+	kind := Sampled([]string{GLVSpecial, GLVHalves, GLVHalves, GLVQuotient, GLVQuotient, GLVNibble, GLVGeneral, GLVLambdaPow, GLVShort, GLVShort}).Draw(t, label+"_kind")
 	n := ref.N
 	switch kind {
 	case GLVSpecial:
@@ -95,6 +96,28 @@ func GLVScalar(t *rapid.T, label string) (*big.Int, string) {
 		s := num.Div(num, new(big.Int).Lsh(g, 2))
 		s.Add(s, bi(int64(rapid.IntRange(-2, 2).Draw(t, label+"_adj"))))
 		return ref.Mod(s, n), kind
+	case GLVShort:
+		// s = k1 + k2*lambda with two short halves of independently drawn byte lengths (0..16) and signs:
+		// ladders that skip leading zero windows, or size their loop from one half, see unequal lengths here
+		half := func(l string) *big.Int {
+			nb := rapid.IntRange(0, 16).Draw(t, l+"_bytes")
+			if nb == 0 {
+				return new(big.Int)
+			}
+			b := Bytes(t, nb, nb, l)
+			if rapid.Bool().Draw(t, l+"_top") {
+				b[0] |= 0x80
+			} else if b[0] == 0 {
+				b[0] = 1
+			}
+			v := new(big.Int).SetBytes(b)
+			if rapid.Bool().Draw(t, l+"_neg") {
+				v.Neg(v)
+			}
+			return v
+		}
+		k1, k2 := half(label+"_k1"), half(label+"_k2")
+		return ref.Mod(new(big.Int).Add(k1, new(big.Int).Mul(k2, ref.Lambda)), n), kind
 	case GLVNibble:
 		i := rapid.IntRange(0, 31).Draw(t, label+"_pos")
 		d := rapid.IntRange(1, 15).Draw(t, label+"_dig")
